@@ -455,6 +455,8 @@ impl Request {
             do_not_send_body,
             None,
         ))?;
+        #[cfg(tiny_http_verif)]
+        crate::verif::point(crate::verif::FP_RESPOND_PRE_FLUSH, 0, 0);
 
         Self::ignore_client_closing_errors(writer.flush())
     }
